@@ -118,6 +118,10 @@ F4 == {List(t, Reps(t, n)) : t \in ElemTypes, n \in CollSizes}
       \cup {Map(T_BOOL, vt, [i \in 1..n |-> <<KeyN(T_BOOL, i), RepAny(vt)>>]) : vt \in PrimTypes, n \in {1, 2}}
       \cup {Map(T_I32, T_I32, [i \in 1..n |-> <<KeyN(T_I32, i), KeyN(T_I32, i + 1)>>]) : n \in {15, 16, 128}}
       \cup {List(T_I8, [i \in 1..n |-> Leaf("i8", <<i % 256>>)]) : n \in {127, 128, 300}}
+      \* sets and maps around the same header boundaries (the set header has its own length function)
+      \cup {SetV(t, [i \in 1..n |-> KeyN(t, i)]) : t \in {T_I32, T_BINARY, T_I16}, n \in {14, 15, 16}}
+      \cup {SetV(T_I32, [i \in 1..n |-> KeyN(T_I32, i)]) : n \in {127, 128}}
+      \cup {Map(T_I16, T_BINARY, [i \in 1..n |-> <<KeyN(T_I16, i), RepAny(T_BINARY)>>]) : n \in {14, 127}}
 \* F5: nested structs with siblings before and after: the field-id context must be saved and restored
 Inner(d) == IF d = 0 THEN Struct(<<Fld(3, Leaf("i16", FromInt(5, 16)))>>)
             ELSE IF d = 1 THEN Struct(<<Fld(1, Leaf("bool", <<1>>)), Fld(9, Struct(<<Fld(3, Leaf("i16", FromInt(5, 16)))>>)), Fld(10, Leaf("bool", <<0>>))>>)
